@@ -76,6 +76,18 @@ Definition n_date : bytes := [68; 97; 116; 101].                                
 Definition n_mid : bytes := [77; 101; 115; 115; 97; 103; 101; 45; 73; 100].       (* "Message-Id" *)
 Definition n_received : bytes := [82; 101; 99; 101; 105; 118; 101; 100].          (* "Received" *)
 
+(* ---- several messages through one Queue / one list of policy objects ---- *)
+(* a message as it arrives: contents only *)
+Record msg := mkmsg { m_sender : bytes; m_rcpts : list bytes; m_hdr : list header; m_body : bytes }.
+(* the Envelope object built for it: four new objects *)
+Definition mk_input (n : N) (m : msg) : env :=
+  mkenv n (m_sender m) (m_rcpts m) (n + 1) (m_hdr m) (n + 2) (n + 3) (m_body m).
+(* what is observable of an envelope apart from object identity *)
+Definition content (e : env) : bytes * list bytes * list header * bytes := (sender e, rcpts e, hdr e, body e).
+(* the same envelope with all its objects renamed (identities moved by d) *)
+Definition shift_env (d : N) (e : env) : env :=
+  mkenv (eid e + d) (sender e) (rcpts e) (rid e + d) (hdr e) (hid e + d) (cid e + d) (body e).
+
 Section Policies.
   Variable rule : Type.                               (* (compiled pattern, repl, count) *)
   Variable subn : rule -> bytes -> bytes * N.         (* re.subn(pattern, repl, rcpt, count) *)
@@ -224,6 +236,21 @@ Section Policies.
   (* results = [envelope]; recurse(envelope, 0); return results *)
   Definition run_policies (chain : list policy) (next0 : N) (e : env) : st :=
     recurse chain (eid e) (mkst [e] next0 false).
+
+  (* One Queue handling messages one after the other (one Queue.enqueue call each) with the SAME policy
+     objects.  The policies are functions of the envelope they are given: no policy object keeps anything
+     from one message to the next (no memo, no list handed out twice), and `results` is local to one
+     _run_policies call.  The only thing that goes from one message to the next is the allocation counter
+     (new objects are new). *)
+  Fixpoint run_messages (chain : list policy) (n : N) (ms : list msg) : list st :=
+    match ms with
+    | [] => []
+    | m :: ms' => let s := run_policies chain (n + 4) (mk_input n m) in s :: run_messages chain (next s) ms'
+    end.
+  (* outcome of one message apart from object identities *)
+  Definition outcome (s : st) : bool * list (bytes * list bytes * list header * bytes) :=
+    (failed s, map content (results s)).
+  Definition shift_st (d : N) (s : st) : st := mkst (map (shift_env d) (results s)) (next s + d) (failed s).
 
   (* ---------------- vocabulary of the property statements ---------------- *)
 
